@@ -139,3 +139,40 @@ Proof.
   destruct n as [|b0 [|b1 [|b2 [|b3 [|b4 t]]]]]; simpl in Hl; try lia.
   unfold nth_b in *. simpl in H0, H1, H2, H3, H4. subst. reflexivity.
 Qed.
+
+(* ---------------------------------------------------------------------------------------- *)
+(* the transmitted 56 bits *)
+
+Lemma inc_le_prefix : forall lo hi, Exists (fun b => b <> 255) lo -> all_bytes lo -> inc_le (lo ++ hi) = inc_le lo ++ hi.
+Proof.
+  induction lo as [|b t IH]; intros hi Hex Hb; [inversion Hex|].
+  inversion Hb as [|? ? Hb0 Hbt]; subst. cbn [app inc_le].
+  destruct (0 <? (b + 1) mod 256) eqn:E; [reflexivity|].
+  assert (b = 255) by lia. subst b. cbn [app]. f_equal. apply IH; [|exact Hbt].
+  inversion Hex as [? ? H|? ? H]; [congruence|exact H].
+Qed.
+
+(* a counter whose low 7 bytes are not all 0xff keeps its upper 5 bytes when incremented *)
+Lemma increment_keeps_top : forall hi lo, length lo = 7%nat -> all_bytes lo -> Exists (fun b => b <> 255) lo ->
+  nonce_increment (hi ++ lo) = hi ++ nonce_increment lo.
+Proof.
+  intros hi lo Hl Hb Hex. unfold nonce_increment. rewrite rev_app_distr.
+  rewrite inc_le_prefix; [rewrite rev_app_distr, rev_involutive; reflexivity| |].
+  - apply Exists_exists in Hex. destruct Hex as (x & Hin & Hx). apply Exists_exists. exists x. split; [apply in_rev in Hin; exact Hin|exact Hx].
+  - apply all_bytes_rev. exact Hb.
+Qed.
+
+(* C02/C04: the nonce a sender uses equals what the receiver reconstructs, as long as the counter
+   fits the 56 transmitted bits (low 7 bytes not all 0xff before the increment) *)
+Theorem rebuild_after_increment : forall (hf : bool) lo, length lo = 7%nat -> all_bytes lo -> Exists (fun b => b <> 255) lo ->
+  let n := (if hf then 128 else 0) :: [0; 0; 0; 0] ++ lo in
+  nonce_rebuild (negb hf) (nonce_wire (nonce_increment n)) = nonce_increment n /\
+  length (nonce_increment n) = 12%nat.
+Proof.
+  intros hf lo Hl Hb Hex n. unfold n.
+  change ((if hf then 128 else 0) :: [0; 0; 0; 0] ++ lo) with ([(if hf then 128 else 0); 0; 0; 0; 0] ++ lo).
+  rewrite increment_keeps_top by assumption.
+  assert (Hl' : length (nonce_increment lo) = 7%nat) by (rewrite increment_length; exact Hl).
+  split; [|rewrite app_length; cbn [length]; lia].
+  unfold nonce_rebuild, nonce_wire. cbn [app skipn]. destruct hf; reflexivity.
+Qed.
